@@ -554,3 +554,11 @@ def r17_10(ctx):
         ctx.check(f"`{w};` is the {best_kw.text().split(': ', 1)[1]} statement", rank(best_kw) < rank(best_rv),
                   "the keyword alternative precedes the identifier reading, or it ends with the terminal that ends the statement (scanner-completed)",
                   f"keyword reading {best_kw.text()} rank {rank(best_kw)}; identifier reading {best_rv.text()} rank {rank(best_rv)}", gm.where("stmt"))
+
+
+@rule("R17.11", "C17", "the trees of an instruction are those of its parts, in the order of the parts, whatever the process's hash seed: the worker parses each part in list order with its own parser and depends on nothing but its argument", min_instances=8)
+def r17_11(ctx):
+    from .c18 import r18_1, r18_3
+
+    r18_1(ctx)
+    r18_3(ctx)
